@@ -13,6 +13,107 @@ RULE = "rule instances = (rule, site) pairs over MIR stores / call arguments / b
 MT = 'mtud::MtuDiscovery'
 
 
+# --------------------------------------------------------------------------
+# exact-shape helpers (casts, copies and From/Into are already erased by the describer)
+# --------------------------------------------------------------------------
+
+def _is_call(v, *pats):
+    """v IS the result of a call to one of pats (not merely contains one)"""
+    return isinstance(v, tuple) and v[0] == 'call' and any(v[1] == p or path_matches(v[2], p) or D._trait_form(v[1]) == p for p in pats)
+
+
+def _is_min(v):
+    return isinstance(v, tuple) and v[0] == 'call' and v[1].rsplit('::', 1)[-1] == 'min' and len(v[3]) == 2
+
+
+def _is_named_const(v, name):
+    return isinstance(v, tuple) and v[0] == 'const' and bool(v[3]) and (v[3] == name or v[3].endswith('::' + name))
+
+
+def _is_field(v, name):
+    return isinstance(v, tuple) and v[0] == 'field' and v[2] == name
+
+
+_CONV = ('Result::unwrap', 'Result::expect', 'Option::unwrap', 'Option::expect', 'TryInto::try_into', 'TryFrom::try_from')
+
+
+def _peel_conv(v):
+    """peel checked integer conversions (`x.try_into().unwrap()`, `u16::try_from(x).expect(..)`): same value as `x as _`"""
+    while isinstance(v, tuple) and v[0] == 'call' and v[3] and (v[1] in _CONV or D._trait_form(v[1]) in _CONV):
+        v = v[3][0]
+    return v
+
+
+def _payload(v):
+    """peel `(X as Some|Ok|Continue).0` layers: the value carried by an Option / Result / Try::branch"""
+    while isinstance(v, tuple) and v[0] == 'field' and v[2] == '0' and v[1][0] == 'variant' and v[1][2] in ('Some', 'Ok', 'Continue'):
+        v = v[1][1]
+    return v
+
+
+_SUBS = ('saturating_sub', 'wrapping_sub')
+_ADDS = ('saturating_add', 'wrapping_add')
+
+
+def _terms(v, sign=1, pos=None, neg=None):
+    """flatten a +/- expression (operators and saturating/wrapping method forms) into (added leaves, subtracted leaves)"""
+    if pos is None:
+        pos, neg = [], []
+    m = v[1].rsplit('::', 1)[-1] if v[0] == 'call' and len(v[3]) == 2 else ''
+    if (v[0] == 'bin' and v[1] == 'Sub') or m in _SUBS:
+        a, b = (v[2], v[3]) if v[0] == 'bin' else v[3]
+        _terms(a, sign, pos, neg)
+        _terms(b, -sign, pos, neg)
+    elif (v[0] == 'bin' and v[1] == 'Add') or m in _ADDS:
+        a, b = (v[2], v[3]) if v[0] == 'bin' else v[3]
+        _terms(a, sign, pos, neg)
+        _terms(b, sign, pos, neg)
+    else:
+        (pos if sign > 0 else neg).append(v)
+    return pos, neg
+
+
+def _pure(v):
+    """no arithmetic anywhere inside the descriptor"""
+    for x in D.walk(v):
+        if x[0] == 'bin' and x[1] in D.ARITH:
+            return False
+        if x[0] == 'call' and x[1].rsplit('::', 1)[-1] in D._ARITH_CALLS + _ADDS + _SUBS + ('next_multiple_of', 'pow', 'max'):
+            return False
+    return True
+
+
+def _only_over_edge(body, br, good, bad, site):
+    """site is dominated by the branch and cannot be reached over its `bad` edge without re-evaluating the branch"""
+    return good != bad and body.dominates(br.bb, site) and site != br.bb and site not in body.reachable_from(bad, avoid=[br.bb])
+
+
+def _leaf_defs(body, d, o, bb, idx, depth=0):
+    """(block, descriptor) of the definitions an operand is copied from: unnamed temporaries are followed through
+    plain copies/moves; the block is the one holding the defining statement (so that a value chosen by control flow
+    -- `a && (b || c)` -- is attributed to the edge it was chosen on)"""
+    if o[0] not in ('c', 'm'):
+        return [(bb, d.operand(o, bb, idx))]
+    local, proj = o[1]
+    if proj or body.locals[local][1] or depth > 8:
+        return [(bb, d.operand(o, bb, idx))]
+    out = []
+    for df in d.reaching_defs(local, bb, idx):
+        if df[0] == 'stmt' and df[3][0] == 'use':
+            out.extend(_leaf_defs(body, d, df[3][1], df[1], df[2], depth + 1))
+        elif df[0] == 'stmt':
+            out.append((df[1], d.rvalue(df[3], df[1], df[2], 0)))
+        elif df[0] == 'call':
+            out.append((df[1], d.call_desc(df[2], 0)))
+        else:
+            out.append((bb, ('local', local, '')))
+    return out
+
+
+def _is_true(v):
+    return v[0] == 'const' and v[1] == 'int' and str(v[2]) in ('1', 'true')
+
+
 def rule_a(ctx):
     F = ctx.facts
     pt = ctx.pfn('Connection::poll_transmit')
@@ -27,9 +128,10 @@ def rule_a(ctx):
                     seg.append((df[1], df[2], d.rvalue(df[3], df[1], df[2], 0)))
                 elif df[0] == 'call':
                     seg.append((df[1], 0, d.call_desc(df[2], 0)))
-    ok = len(seg) == 2
+    # the value IS current_mtu() (cast / From erased) or IS buf.len(): `current_mtu() + k` is not a provenance
+    ok = len(seg) == 2 and any(_is_call(v, 'PathData::current_mtu', 'MtuDiscovery::current_mtu') for _, _, v in seg)
     for bb, idx, v in seg:
-        if not (D.has_call(v, 'PathData::current_mtu') or (v[0] == 'call' and v[1] == 'Vec::len' and D.has_param(v, name='buf'))):
+        if not (_is_call(v, 'PathData::current_mtu', 'MtuDiscovery::current_mtu') or (_is_call(v, 'Vec::len') and len(v[3]) == 1 and v[3][0][0] == 'param' and v[3][0][2] == 'buf')):
             ok = False
     ctx.check(ok, 'a', 'segment_size_provenance', pt, pt.where(), 'segment_size = current_mtu() | buf.len() of the first datagram', 'segment_size has an unexpected definition: %s' % [D.render(v)[:80] for _, _, v in seg])
     # buf_capacity stores
@@ -63,7 +165,7 @@ def rule_a(ctx):
         r = D.render(v)
         if v[0] == 'local' and v[2] == 'segment_size':
             continue
-        if v[0] == 'call' and v[1].endswith('::min') and 'segment_size' in r and (D.has_const(v, named='INITIAL_MTU') or 'INITIAL_MTU' in r):
+        if _is_min(v) and any(x[0] == 'local' and x[2] == 'segment_size' for x in v[3]) and any(_is_named_const(x, 'INITIAL_MTU') for x in v[3]):
             probe_block = bb
             continue
         okv = False
@@ -89,19 +191,27 @@ def rule_a(ctx):
         ok = a[0] == 'local' and a[2] == 'buf_capacity'
         ctx.check(ok, 'a', 'builder_given_tracked_capacity', pt, c.where(), D.render(a), 'PacketBuilder::new is not given the tracked buf_capacity: ' + D.render(a))
     # pad_to arguments
+    # the argument IS (cast peeled) the constant MIN_INITIAL_SIZE, the segment_size local, or the size returned by
+    # MtuDiscovery::poll_transmit -- `segment_size + k` / `MIN_INITIAL_SIZE - k` are not
     n = 0
     for fn in ('Connection::poll_transmit', 'Connection::send_path_challenge'):
         b = ctx.pfn(fn)
         dd = describer(F, b, stop_named=True)
+        mps = b.calls_to('MtuDiscovery::poll_transmit')
         for c in b.calls_to('PacketBuilder::pad_to'):
             n += 1
-            a = dd.operand(c.args[1], c.bb, term_idx(b, c.bb))
+            a = _peel_conv(dd.operand(c.args[1], c.bb, term_idx(b, c.bb)))
+            full = _payload(_peel_conv(arg_desc(F, c, 1)))
             r = D.render(a)
-            ok = 'MIN_INITIAL_SIZE' in r or (a[0] == 'local' and a[2] in ('segment_size', 'probe_size')) or r in ('_(segment_size)',) or 'segment_size' in r or 'probe_size' in r
+            ok = _is_named_const(a, 'MIN_INITIAL_SIZE') or (a[0] == 'local' and a[2] == 'segment_size') or any(is_site(full, m) for m in mps)
             ctx.check(ok, 'a', 'pad_to_arguments', b, c.where(), r, 'pad_to called with an unexpected size: ' + r)
     ctx.floor('a', 'pad_to_sites', n, 6)
     # final pad-to-MTU: guarded by pad_datagram_to_mtu && buf_capacity >= datagram_start + segment_size
-    fin = [c for c in pt.calls_to('PacketBuilder::pad_to') if 'segment_size' in D.render(dn.operand(c.args[1], c.bb, term_idx(pt, c.bb)))]
+    fin = []
+    for c in pt.calls_to('PacketBuilder::pad_to'):
+        a = _peel_conv(dn.operand(c.args[1], c.bb, term_idx(pt, c.bb)))
+        if a[0] == 'local' and a[2] == 'segment_size':
+            fin.append(c)
     okf = True
     nf = 0
     for c in fin:
@@ -115,6 +225,19 @@ def rule_a(ctx):
               'a packet can be padded to segment_size although its datagram was allocated less than a full segment (loss probes would exceed 1200 bytes)')
 
 
+def _none_edges(F, body, is_place):
+    """(Branch, target when the Option place is None, target when it is Some) for is_some()/is_none()/discriminant tests"""
+    out = []
+    for br in branches(F, body):
+        inner, neg = peel_not(br.desc)
+        if _is_call(inner, 'Option::is_some', 'Option::is_none') and len(inner[3]) == 1 and is_place(inner[3][0]):
+            some_when = (inner[1].endswith('is_some')) != neg
+            out.append((br, br.target(0 if some_when else 1), br.target(1 if some_when else 0)))
+        elif inner[0] == 'discr' and is_place(inner[1]) and not neg:
+            out.append((br, br.target(0), br.target(1)))
+    return out
+
+
 def rule_b(ctx):
     F = ctx.facts
     pt = ctx.pfn('Connection::poll_transmit')
@@ -126,13 +249,22 @@ def rule_b(ctx):
     pads = [c for c in pt.calls_to('PacketBuilder::pad_to') if any(contains_site(arg_desc(F, c, 1), m) for m in mp)]
     ctx.check(len(pads) == 1, 'b', 'probe_padded_to_probe_size', pt, pt.where(), 'pad_to(probe_size)', 'the MTU probe is not padded to the size chosen by MtuDiscovery')
     # probe only when nothing else was written and established
+    # the probe site is reachable only over the TRUE edge of a branch whose condition IS state.is_established()
+    est = {}
+    for br, truth, tgt in bool_edges(ctx, pt, lambda x: _is_call(x, 'State::is_established') and len(x[3]) == 1 and _is_field(x[3][0], 'state')):
+        est.setdefault(br.bb, [br, None, None])[1 if truth else 2] = tgt
     for m in mp:
-        es = [br for br in branches(F, pt) if pt.dominates(br.bb, m.bb) and D.has_call(br.desc, 'State::is_established')]
-        ctx.check(bool(es), 'b', 'probe_only_when_established', pt, m.where(), 'is_established()', 'MTU probes can be sent before the handshake completes')
+        ok = any(_only_over_edge(pt, br, t, f, m.bb) for br, t, f in est.values())
+        ctx.check(ok, 'b', 'probe_only_when_established', pt, m.where(), 'probe only over the true edge of is_established()', 'MTU probes can be sent before the handshake completes')
+    # one probe in flight: every `in_flight_probe = Some(..)` of MtuDiscovery's poll_transmit is reachable only over the
+    # None edge of a test of in_flight_probe (is_some / is_none / discriminant)
     ep = ctx.pfn('EnabledMtuDiscovery::poll_transmit')
-    ifp = [br for br in branches(F, ep) if D.has_field(br.desc, 'in_flight_probe')]
-    somes = [r for r in ep.return_blocks()]
-    ctx.check(bool(ifp), 'b', 'single_probe_in_flight', ep, ep.where(), 'in_flight_probe.is_some() -> None', 'the one-probe-in-flight guard is gone')
+    ne = _none_edges(F, ep, lambda y: _is_field(y, 'in_flight_probe'))
+    sets = [(w, v) for w, v in store_values(ctx, 'SearchState', 'in_flight_probe', in_fn=ep) if not (v[0] == 'agg' and v[2].endswith('Option::None'))]
+    for w, v in sets:
+        ok = any(_only_over_edge(ep, br, none_t, some_t, w.bb) for br, none_t, some_t in ne)
+        ctx.check(ok, 'b', 'single_probe_in_flight', ep, w.where(), 'in_flight_probe set only over the None edge of its own test', 'a new probe can be put in flight while another one is (the in_flight_probe.is_some() -> None guard is gone or inverted)')
+    ctx.floor('b', 'in_flight_probe_set_sites', len(sets), 1)
     ss = ctx.pfn('SearchState::new')
     cl = ss.calls_to('Ord::clamp')
     ok = bool(cl) and all(D.has_param(arg_desc(F, c, 2), name='peer_max_udp_payload_size') and D.has_field(arg_desc(F, c, 0), 'upper_bound') for c in cl)
@@ -140,6 +272,96 @@ def rule_b(ctx):
     lb = local_defs_desc(ctx, ss, 'lower_bound')
     ok = any(y[0] == 'call' and y[1].endswith('::min') and D.has_param(y, name='peer_max_udp_payload_size') for x in lb for y in flat(x))
     ctx.check(ok, 'b', 'search_lower_bound_clamped_by_peer_limit', ss, ss.where(), 'lower_bound = min(lower_bound, peer_max)', 'the MTU search lower bound is no longer clamped by the peer limit')
+
+
+def _client_initial_padded(ctx, pt, dn, pds):
+    """RFC 9000 14.1.  From the construction of a packet (PacketBuilder::new(.., space, ..)), ASSUMING `space == Initial`
+    and `self.side.is_client()` (branches on exactly these conditions only take the consistent edge, all other branches
+    both), every path makes pad_datagram true -- a store of `true`, or of `pad_datagram | t` where t was assigned `true`
+    / the Initial test / is_client() itself on that path -- before pad_datagram is consumed, reset, or or-ed with any
+    other value.  Order and grouping of the `&&` / `||` operands, `if .. { pad_datagram = true }`, `matches!` and
+    negated forms are all the same thing to this rule."""
+    F = ctx.facts
+    what = 'pad_datagram |= Initial && (is_client || ..)'
+    ini_idx = [int(v['discr']) for v in F.adt('packet::SpaceId')['variants'] if v['name'] == 'Initial']
+    starts = []
+    for c in pt.calls_to('PacketBuilder::new'):
+        if len(c.args) > 1 and c.t is not None:
+            sd = dn.operand(c.args[1], c.bb, term_idx(pt, c.bb))
+            full = arg_desc(F, c, 1)
+            if full[0] == 'agg' and full[1] == 'adt' and not full[2].endswith('SpaceId::Initial'):
+                continue          # a packet of a literally different space (the MTU probe: SpaceId::Data)
+            if sd[0] in ('local', 'param'):
+                starts.append((c, sd))
+    if not starts:
+        ctx.bad('c', 'pad_datagram_sources/anchor', pt, pt.where(), what + ': no PacketBuilder::new(.., <space variable>, ..) in poll_transmit')
+        return
+
+    def _is_initial(x):
+        return x[0] == 'agg' and x[2].endswith('SpaceId::Initial') and not x[3]
+
+    def _is_client(x):
+        return _is_call(x, 'ConnectionSide::is_client', 'Side::is_client') and len(x[3]) == 1 and _is_field(x[3][0], 'side')
+
+    def _is_ini_test(x, sd):
+        return x[0] == 'bin' and x[1] == 'Eq' and ((_is_initial(x[2]) and x[3] == sd) or (_is_initial(x[3]) and x[2] == sd))
+    locs = {l for l, _, _, _, _ in pds}
+    for c, sd in starts:
+        forced = {}
+        for br in branches(F, pt, stop_named=True):
+            inner, neg = peel_not(br.desc)
+            if _is_client(inner) or _is_ini_test(inner, sd):
+                forced[br.bb] = br.target(0 if neg else 1)
+            elif inner[0] == 'bin' and inner[1] == 'Ne' and _is_ini_test(('bin', 'Eq') + inner[2:], sd):
+                forced[br.bb] = br.target(1 if neg else 0)
+            elif inner[0] == 'discr' and inner[1] == sd and ini_idx:
+                forced[br.bb] = br.target(ini_idx[0])
+        good, stop = set(), set()
+        for l, bb, idx, x, rv in pds:
+            if _is_true(x):
+                good.add(bb)
+            elif x[0] == 'bin' and x[1] == 'BitOr' and rv[0] == 'bin':
+                for o in (rv[2], rv[3]):
+                    if o[0] in ('c', 'm') and o[1] == [l, []]:
+                        continue
+                    for dbb, dv in _leaf_defs(pt, dn, o, bb, idx):
+                        if _is_true(dv) or _is_client(dv) or _is_ini_test(dv, sd):
+                            good.add(dbb)
+                        else:
+                            stop.add(dbb)
+                stop.add(bb)
+            else:
+                stop.add(bb)      # reset / anything else
+        for br in branches(F, pt, stop_named=True):
+            inner, _ = peel_not(br.desc)
+            if inner[0] == 'local' and inner[1] in locs:
+                stop.add(br.bb)   # consumption
+        stop -= good
+        if not good:
+            ctx.bad('c', 'pad_datagram_sources', pt, c.where(), what + ': nothing sets pad_datagram for a client Initial packet (RFC 9000 14.1: client Initials are padded to 1200)')
+            continue
+        seen, stack, prev = set(), [c.t], {c.t: None}
+        hit = None
+        while stack and hit is None:
+            b = stack.pop()
+            if b in seen or b in good:
+                continue
+            seen.add(b)
+            if b in stop:
+                hit = b
+                break
+            for t in ([forced[b]] if b in forced else pt.succ[b]):
+                if t not in seen and t not in prev:
+                    prev[t] = b
+                if t not in seen:
+                    stack.append(t)
+        path = []
+        b = hit
+        while b is not None:
+            path.append(b)
+            b = prev.get(b)
+        ctx.check(hit is None, 'c', 'pad_datagram_sources', pt, c.where(), what + ': a client Initial packet always gets pad_datagram set',
+                  'a client Initial packet reaches %s without pad_datagram having been set (RFC 9000 14.1: client Initials are padded to 1200)' % fmt_path(pt, list(reversed(path))))
 
 
 def rule_c(ctx):
@@ -161,9 +383,17 @@ def rule_c(ctx):
     rp = [w for w in field_writes(F, 'SentFrames', 'requires_padding', crate='quinn_proto') if F.root_of(w.body).id == pp.id and w.kind == 'assign']
     ctx.check(len(rp) >= 2, 'c', 'challenge_and_response_require_padding', pp, pp.where(), '%d requires_padding stores' % len(rp), 'PATH_CHALLENGE / PATH_RESPONSE no longer mark the packet as requiring padding')
     dn = describer(F, pt, stop_named=True)
-    pd = local_defs_desc(ctx, pt, 'pad_datagram')
-    ok = any(D.has_field(x, 'requires_padding') for x in pd) and any(br.desc[0] == 'call' and br.desc[1] == 'ConnectionSide::is_client' for br in branches(F, pt))
-    ctx.check(ok, 'c', 'pad_datagram_sources', pt, pt.where(), 'pad_datagram |= sent.requires_padding; |= Initial && (is_client || ack_eliciting)', 'pad_datagram no longer collects requires_padding / client-Initial padding')
+    # whole-local stores to pad_datagram, as (block, idx, value with named locals kept, raw rvalue)
+    pds = []
+    for l, (ty, nm) in enumerate(pt.locals):
+        if nm == 'pad_datagram':
+            for df in pt.defs_of(l):
+                if df[0] == 'stmt' and df[1] in pt.live_blocks():
+                    pds.append((l, df[1], df[2], dn.rvalue(df[3], df[1], df[2], 0), df[3]))
+    dfull = describer(F, pt)
+    ok = any(D.has_field(dfull.rvalue(rv, bb, idx, 0), 'requires_padding') for _, bb, idx, _, rv in pds)
+    ctx.check(ok, 'c', 'pad_datagram_sources', pt, pt.where(), 'pad_datagram |= sent.requires_padding', 'pad_datagram no longer collects SentFrames.requires_padding')
+    _client_initial_padded(ctx, pt, dn, pds)
     pads = [c for c in pt.calls_to('PacketBuilder::pad_to') if 'MIN_INITIAL_SIZE' in D.render(arg_desc(F, c, 1))]
     guarded = 0
     for c in pads:
@@ -171,6 +401,136 @@ def rule_c(ctx):
         if brs:
             guarded += 1
     ctx.check(guarded >= 2, 'c', 'pad_datagram_applied_at_both_finish_sites', pt, pt.where(), '%d pad_to(MIN_INITIAL_SIZE) under pad_datagram' % guarded, 'pad_datagram is no longer applied at both packet-finishing sites')
+
+
+def _is_acked_size(F, v):
+    """v IS the Some payload of on_probe_acked(..) (directly, or of `opt.and_then(closure)` / `opt.map(..)`-free forms whose
+    closure returns exactly that call); min(..) with such a value can only lower it and is accepted"""
+    if v[0] == 'phi':
+        return all(_is_acked_size(F, x) for x in v[1])
+    if _is_min(v):
+        return any(_is_acked_size(F, x) for x in v[3])
+    if not (v[0] == 'field' and v[2] == '0' and v[1][0] == 'variant' and v[1][2] == 'Some'):
+        return False
+    return _is_acked_option(F, v[1][1])
+
+
+def _is_acked_option(F, x):
+    if x[0] == 'phi':
+        return all(_is_acked_option(F, y) or (y[0] == 'agg' and y[2].endswith('Option::None')) for y in x[1]) and any(_is_acked_option(F, y) for y in x[1])
+    if _is_call(x, 'EnabledMtuDiscovery::on_probe_acked'):
+        return True
+    if _is_call(x, 'Option::and_then') and len(x[3]) == 2 and x[3][1][0] == 'agg' and x[3][1][1] == 'closure':
+        cb = [b_ for b_ in F.bodies.values() if b_.canon == x[3][1][2]]
+        if len(cb) == 1:
+            rd = [y for _, r_ in ret_descs(F, cb[0]) for y in flat(r_)]
+            return bool(rd) and all(_is_call(y, 'EnabledMtuDiscovery::on_probe_acked') for y in rd)
+    return False
+
+
+_STATE_READERS = ('Option::as_mut', 'Option::as_ref', 'Option::as_deref_mut', 'Option::iter_mut')
+
+
+def _is_fresh_state(v):
+    """v IS Some(EnabledMtuDiscovery::new(..)): a live search state"""
+    return v[0] == 'agg' and v[2].endswith('Option::Some') and len(v[3]) == 1 and _is_call(v[3][0], 'EnabledMtuDiscovery::new')
+
+
+def _state_writers(ctx, body):
+    """every site of `body` that may change which Option<EnabledMtuDiscovery> sits in MtuDiscovery.state, as
+    (block, position in block, is a store of Some(EnabledMtuDiscovery::new(..)), where).  Position = statement index, or
+    len(statements) for the terminator.  `&mut self.state` handed to a call replaces the Option at that call (take / replace /
+    insert / get_or_insert_with / mem::..) unless the call is one of the projections as_mut / as_ref (which cannot);
+    a call result stored there, a store of anything that is not literally Some(new(..)), a store to the whole `*self`
+    and a raw `&mut` borrow all count as replacing it with something unknown (fail closed)."""
+    F = ctx.facts
+    d = describer(F, body)
+    out = []
+    for w in field_writes(F, MT, 'state', crate='quinn_proto'):
+        if w.body is not body:
+            continue
+        if w.kind == 'assign':
+            last = w.place[1][-1]
+            whole = isinstance(last, list) and last[0] == 'f' and last[1] == 'state'
+            fresh = whole and bool(w.rv) and w.rv[0] != 'sd' and _is_fresh_state(d.rvalue(w.rv, w.bb, w.idx, 0))
+            out.append((w.bb, w.idx, fresh, w.where()))
+        elif w.kind == 'mutborrow':
+            if w.call is not None and (w.call.is_(*_STATE_READERS) or D._trait_form(w.call.f) in _STATE_READERS):
+                continue
+            if w.call is not None:
+                out.append((w.call.bb, len(body.blocks[w.call.bb]['s']), False, w.call.where()))
+            else:
+                out.append((w.bb, w.idx, False, w.where()))
+        else:
+            out.append((w.bb, len(body.blocks[w.bb]['s']), False, w.where()))
+    # `*self = ..` / `*mtud = ..`: the whole MtuDiscovery is replaced
+    for i, j, pl, rv, line in body.assigns():
+        if i in body.live_blocks() and pl[1] == ['*'] and 'MtuDiscovery' in str(body.local_ty(pl[0])) and 'Enabled' not in str(body.local_ty(pl[0])):
+            out.append((i, j, False, '%s:%d' % (body.file, line)))
+    return out
+
+
+def _state_before(body, writers, bb, pos):
+    """walk backwards from (bb, pos): the LAST writer of MtuDiscovery.state on every path reaching that point.
+    Returns (set of 'fresh' | 'entry', list of `where` of non-fresh last writers)"""
+    by = {}
+    for wb, wi, fresh, where in writers:
+        by.setdefault(wb, []).append((wi, fresh, where))
+    kinds, clob = set(), []
+    seen = set()
+    stack = [(bb, pos)]
+    while stack:
+        b, p = stack.pop()
+        cand = [x for x in by.get(b, []) if x[0] < p]
+        if cand:
+            wi, fresh, where = max(cand, key=lambda x: x[0])
+            if fresh:
+                kinds.add('fresh')
+            else:
+                clob.append(where)
+            continue
+        if b == 0:
+            kinds.add('entry')
+        for q in body.pred[b]:
+            if q not in seen and not body.blocks[q]['c']:
+                seen.add(q)
+                stack.append((q, len(body.blocks[q]['s']) + 1))
+    return kinds, clob
+
+
+def _limit_lands_in_live_state(ctx, body, instance, what):
+    """The peer limit survives in the search state only if on_peer_max_udp_payload_size_received(..) runs while
+    MtuDiscovery.state holds the Some(EnabledMtuDiscovery) that the function leaves behind:
+      (i)  on every path to the call the last writer of `.state` is a store of Some(EnabledMtuDiscovery::new(..)) -- or there
+           is none and the receiver IS the value built by with_state(.., Some(EnabledMtuDiscovery::new(..))) -- never
+           take()/replace()/None/unknown (the callee would record the limit into nothing);
+      (ii) nothing reachable after the call writes `.state` again (the recorded limit would be thrown away)."""
+    F = ctx.facts
+    ks = body.calls_to('MtuDiscovery::on_peer_max_udp_payload_size_received')
+    if not ks:
+        ctx.bad('d', instance + '/anchor', body, body.where(), what + ': no call of on_peer_max_udp_payload_size_received')
+        return
+    ws = _state_writers(ctx, body)
+    inner = [w for w in field_writes(F, MT, 'state', crate='quinn_proto') if w.body is not body and F.root_of(w.body).id == body.id]
+    for k in ks:
+        kinds, clob = _state_before(body, ws, k.bb, len(body.blocks[k.bb]['s']))
+        recv = arg_desc(F, k, 0)
+        built_live = _is_call(recv, 'MtuDiscovery::with_state') and len(recv[3]) == 3 and _is_fresh_state(recv[3][2])
+        if inner:
+            ctx.bad('d', instance, body, inner[0].where(), what + ': MtuDiscovery.state is written inside a closure of this function; cannot order it against the call')
+        elif clob:
+            ctx.bad('d', instance, body, k.where(), what + ': the peer limit is applied while MtuDiscovery.state was last written at %s (taken / replaced, not a fresh Some(EnabledMtuDiscovery::new(..))): '
+                    'the limit is recorded into nothing and the next search ignores the peer max_udp_payload_size' % sorted(set(clob)))
+        elif 'entry' in kinds and not built_live:
+            ctx.bad('d', instance, body, k.where(), what + ': a path reaches the call without MtuDiscovery.state having been set to Some(EnabledMtuDiscovery::new(..)) and the receiver is not with_state(.., Some(new(..)))')
+        else:
+            ctx.ok('d', instance, body, k.where(), what + ': state is a fresh Some(EnabledMtuDiscovery::new(..)) on every path to the call')
+        after = []
+        if k.t is not None:
+            reach = body.reachable_from(k.t)
+            after = sorted({where for wb, wi, fresh, where in ws if wb in reach})
+        ctx.check(not after, 'd', instance, body, k.where(), what + ': MtuDiscovery.state is not written again after the call',
+                  what + ': MtuDiscovery.state is written again at %s after the peer limit was recorded in it: the new search state forgets the peer max_udp_payload_size' % after)
 
 
 def rule_d(ctx):
@@ -184,12 +544,7 @@ def rule_d(ctx):
             ctx.bad('d', 'current_mtu_writers/unexpected_writer', r, w.where(), 'current_mtu stored in %s' % r.short)
             continue
         if r.short == 'MtuDiscovery::on_acked':
-            ok = D.has_call(v, 'EnabledMtuDiscovery::on_probe_acked')
-            for n_ in walk(v):
-                if n_[0] == 'agg' and n_[1] == 'closure':
-                    cb = [b_ for b_ in F.bodies.values() if b_.canon == n_[2]]
-                    if cb and may_reach(F, cb[0], ['EnabledMtuDiscovery::on_probe_acked'], 1):
-                        ok = True
+            ok = _is_acked_size(F, v)
             ctx.check(ok, 'd', 'mtu_raised_only_to_acked_probe_size', r, w.where(), D.render(v)[:120], 'current_mtu raised to something other than the acked probe size: ' + D.render(v)[:160])
         elif r.short == 'MtuDiscovery::black_hole_detected':
             ctx.check(D.has_field(v, 'min_mtu'), 'd', 'black_hole_falls_back_to_min_mtu', r, w.where(), D.render(v), 'black hole fallback is not min_mtu')
@@ -203,16 +558,58 @@ def rule_d(ctx):
     rd = [y for _, x in ret_descs(F, opa) for y in flat(x)]
     ok = any(y[0] == 'agg' and y[2].endswith('Some') and D.has_field(y, 'last_probed_mtu') for y in rd)
     ctx.check(ok, 'd', 'acked_probe_size_is_last_probed', opa, opa.where(), 'Some(last_probed_mtu) when in_flight_probe == Some(pn)', 'on_probe_acked returns something other than last_probed_mtu')
-    brs = [b for b in branches(F, opa) if D.has_field(b.desc, 'in_flight_probe')]
-    ctx.check(bool(brs), 'd', 'acked_probe_must_be_the_in_flight_one', opa, opa.where(), 'in_flight_probe == Some(pn)', 'any acked packet can now raise the MTU')
+    # every `return Some(..)` is unreachable over the edge on which in_flight_probe != Some(<the acked pn>)
+    def _is_pn(x):
+        return (x[0] == 'param' and x[1] >= 2) or (x[0] == 'agg' and x[2].endswith('Option::Some') and len(x[3]) == 1 and x[3][0][0] == 'param' and x[3][0][1] >= 2)
+
+    def _is_ifp(x):
+        return _is_field(_payload(x), 'in_flight_probe')
+
+    def _some_and_eq(x):
+        """in_flight_probe.is_some_and(|p| p == pn)"""
+        if not (_is_call(x, 'Option::is_some_and') and len(x[3]) == 2 and _is_ifp(x[3][0]) and x[3][1][0] == 'agg' and x[3][1][1] == 'closure'):
+            return False
+        caps = x[3][1][3]
+        cb = [b_ for b_ in F.bodies.values() if b_.canon == x[3][1][2]]
+        if len(cb) != 1 or len(caps) != 1 or not _is_pn(caps[0]) or caps[0][0] != 'param':
+            return False
+        rd = [y for _, r_ in ret_descs(F, cb[0]) for y in flat(r_)]
+        return bool(rd) and all(y[0] == 'bin' and y[1] == 'Eq' and {y[2][0], y[3][0]} == {'param', 'upvar'} for y in rd)
+    sites = sorted({i for i, j, pl, rv, line in opa.assigns() if i in opa.live_blocks() and pl[0] == 0 and not pl[1] and rv[0] == 'agg' and rv[1][0] == 'adt' and rv[1][2] == 'Some'})
+    viol = [(br, tgt) for br, truth, tgt in guard_edges(ctx, opa, lambda o, a, b: o == 'Ne' and ((_is_pn(a) and _is_ifp(b)) or (_is_pn(b) and _is_ifp(a))))]
+    viol += [(br, tgt) for br, truth, tgt in bool_edges(ctx, opa, _some_and_eq) if not truth]
+    if not sites:
+        ctx.bad('d', 'acked_probe_must_be_the_in_flight_one/anchor', opa, opa.where(), 'no `return Some(..)` site found in on_probe_acked')
+    elif not viol:
+        ctx.bad('d', 'acked_probe_must_be_the_in_flight_one/guard_missing', opa, opa.where(), 'no branch compares in_flight_probe with Some(<acked pn>): any acked packet can now raise the MTU')
+    else:
+        unprot = [s_ for s_ in sites if not any(opa.dominates(br.bb, s_) and s_ != br.bb and s_ not in opa.reachable_from(tgt, avoid=[br.bb]) for br, tgt in viol)]
+        ctx.check(not unprot, 'd', 'acked_probe_must_be_the_in_flight_one', opa, viol[0][0].where(), 'in_flight_probe == Some(pn): %d `return Some(..)` site(s) only reachable over its pass edge' % len(sites),
+                  '`return Some(..)` in blocks %s is reachable although in_flight_probe != Some(pn): any acked packet can now raise the MTU' % unprot)
     # reset re-applies the peer limit
     rs = ctx.pfn('MtuDiscovery::reset')
     c = rs.calls_to('MtuDiscovery::on_peer_max_udp_payload_size_received')
     ok = bool(c) and all(D.has_field(arg_desc(F, x, 1), 'peer_max_udp_payload_size') for x in c)
     ctx.check(ok, 'd', 'reset_keeps_peer_limit', rs, rs.where(), 'reset() re-applies state.peer_max_udp_payload_size', 'MtuDiscovery::reset forgets the peer max_udp_payload_size (probes could exceed it after path_changed())')
+    _limit_lands_in_live_state(ctx, rs, 'reset_peer_limit_lands_in_new_state', 'reset()')
     nw = ctx.pfn('MtuDiscovery::new')
     c = nw.calls_to('MtuDiscovery::on_peer_max_udp_payload_size_received')
     ctx.check(bool(c), 'd', 'new_path_applies_known_peer_limit', nw, nw.where(), 'new(.., Some(peer_max)) applies it', 'a migrated path no longer starts with the known peer limit')
+    _limit_lands_in_live_state(ctx, nw, 'new_path_peer_limit_lands_in_state', 'new()')
+    # the callee records exactly the announced limit in the search state (what SearchState::new clamps by)
+    op = ctx.pfn('MtuDiscovery::on_peer_max_udp_payload_size_received')
+    rec = [w for w in field_writes(F, 'EnabledMtuDiscovery', 'peer_max_udp_payload_size', crate='quinn_proto') if w.kind in ('assign', 'callresult')]
+    n = 0
+    for w in rec:
+        r = F.root_of(w.body)
+        if r.id != op.id:
+            ctx.bad('d', 'peer_limit_recorded_in_search_state/unexpected_writer', r, w.where(), 'EnabledMtuDiscovery.peer_max_udp_payload_size stored in %s' % r.short)
+            continue
+        n += 1
+        v = describer(F, w.body).rvalue(w.rv, w.bb, w.idx, 0) if w.kind == 'assign' and w.rv and w.rv[0] != 'sd' else ('?',)
+        ctx.check(w.body is op and v[0] == 'param' and v[1] == 2, 'd', 'peer_limit_recorded_in_search_state', op, w.where(), 'state.peer_max_udp_payload_size = <the announced limit>',
+                  'the search state records something other than the announced peer max_udp_payload_size: ' + D.render(v)[:120])
+    ctx.floor('d', 'peer_limit_record_sites', n, 1)
     sp = ctx.pfn('Connection::set_peer_params')
     ctx.check(bool(sp.calls_to('MtuDiscovery::on_peer_max_udp_payload_size_received')), 'd', 'peer_params_apply_limit', sp, sp.where(), 'set_peer_params forwards max_udp_payload_size', 'peer max_udp_payload_size is no longer forwarded to MTU discovery')
 
@@ -221,16 +618,32 @@ def rule_e(ctx):
     F = ctx.facts
     ms = ctx.pfn('Datagrams::max_size')
     rd = [y for _, x in ret_descs(F, ms) for y in flat(x)]
-    ok = False
-    for y in rd:
-        if y[0] == 'agg' and y[2].endswith('Some'):
-            v = y[3][0]
-            ok = v[0] == 'call' and v[1].endswith('::min') and D.has_call(v, 'PathData::current_mtu') and D.has_call(v, 'Connection::predict_1rtt_overhead') and D.has_field(v, 'max_datagram_frame_size') and D.has_const(v, named='SIZE_BOUND')
+    # every returned Some(v): v IS min(A, B) with A = current_mtu() - predict_1rtt_overhead(..) - SIZE_BOUND and
+    # B = peer max_datagram_frame_size - SIZE_BOUND, each checked on its own operand (any order / grouping of the terms)
+    def _mtu_side(x):
+        pos, neg = _terms(x)
+        return (len(pos) == 1 and _is_call(pos[0], 'PathData::current_mtu', 'MtuDiscovery::current_mtu') and len(neg) == 2
+                and sum(1 for t in neg if _is_call(t, 'Connection::predict_1rtt_overhead')) == 1 and sum(1 for t in neg if _is_named_const(t, 'SIZE_BOUND')) == 1)
+
+    def _peer_side(x):
+        pos, neg = _terms(x)
+        return len(pos) == 1 and D.has_field(pos[0], 'max_datagram_frame_size') and _pure(pos[0]) and len(neg) == 1 and _is_named_const(neg[0], 'SIZE_BOUND')
+    somes = [y[3][0] for y in rd if y[0] == 'agg' and y[2].endswith('Some') and len(y[3]) == 1]
+    ok = bool(somes)
+    for v in somes:
+        if not (_is_min(v) and ((_mtu_side(v[3][0]) and _peer_side(v[3][1])) or (_mtu_side(v[3][1]) and _peer_side(v[3][0])))):
+            ok = False
     ctx.check(ok, 'e', 'datagram_max_size_expression', ms, ms.where(), 'min(peer_limit - SIZE_BOUND, current_mtu - overhead - SIZE_BOUND)', 'Datagrams::max_size expression changed')
     dl = ctx.pfn('Connection::detect_lost_packets')
     bh = dl.calls_to('MtuDiscovery::black_hole_detected')
     do = dl.calls_to('DatagramState::drop_oversized')
-    ok = bool(bh) and bool(do) and all(any(dl.dominates(b.bb, d_.bb) for b in bh) for d_ in do) and all(D.has_call(arg_desc(F, d_, 1), 'Datagrams::max_size') for d_ in do)
+    # the limit IS the payload of a max_size() evaluated AFTER black_hole_detected lowered the MTU (producer dominated too)
+    def _fresh_limit(a):
+        a = _payload(a)
+        if a[0] == 'phi':
+            return all(_fresh_limit(x) for x in a[1])
+        return _is_call(a, 'Datagrams::max_size') and any(dl.dominates(b.bb, a[4]) and b.bb != a[4] for b in bh)
+    ok = bool(bh) and bool(do) and all(any(dl.dominates(b.bb, d_.bb) for b in bh) for d_ in do) and all(_fresh_limit(arg_desc(F, d_, 1)) for d_ in do)
     ctx.check(ok, 'e', 'black_hole_drops_oversized_datagrams', dl, dl.where(), 'drop_oversized(max_size()) after black_hole_detected', 'queued datagrams larger than the fallen-back MTU are no longer dropped')
 
 
